@@ -1,3 +1,11 @@
+#[allow(unused_imports)]
+use swimos_runtime::verif_hooks::*;
+#[allow(unused_imports)]
+use swimos_agent::verif_hooks::*;
+#[allow(unused_imports)]
+use swimos_remote::verif_hooks::*;
+#[allow(unused_imports)]
+use swimos_server_app::verif_hooks::*;
 fn main() {
     vcommon::machinery_failure("C17: engine not built yet");
 }
